@@ -199,7 +199,11 @@ func runEVM(seed uint64, n int, outDir string, replay string) {
 					o.Pad("panic %v", p)
 				}
 			}()
-			switch rc.Intn(16) {
+			switch rc.Intn(18) {
+			case 17:
+				evCreationTxThenTransfer(o, rc, ans)
+			case 16:
+				evPrecompileFails(o, rc, ans)
 			case 15:
 				evSuicideAgain(o, rc, ans)
 			case 14:
@@ -410,6 +414,129 @@ func evSuicideAgain(o *h.Out, rc *h.Rng, ans func(string)) {
 	env.sdb.Finalize(true)
 	check("after the end of the transaction is processed")
 	o.Count("suicide-again")
+}
+
+// evPrecompileFails: a contract sends value along with a call to a precompile that refuses its input (blake2F with a
+// malformed length, the others with too little gas), the precompile account existing or not.  T3: the call reports
+// failure and leaves nothing behind - no balance moved, no account created.
+func evPrecompileFails(o *h.Out, rc *h.Rng, ans func(string)) {
+	o.Op("note")
+	ans("ok")
+	eligible := true
+	env := newEvEnv(params.SelfDestructRefundForkBlock+10, big.NewInt(1), &eligible)
+	caller := evContract(0x61)
+	preNo := []byte{9, 9, 9, 2, 3, 4}[rc.Intn(6)]
+	pre := make([]byte, 20)
+	pre[19] = preNo
+	preIA := common.BytesToAddress(pre, evLoc)
+	pia, perr := preIA.InternalAddress()
+	value := uint64(1 + rc.Intn(50))
+	gasArg := uint64(100000)
+	inLen := uint64(rc.Intn(8)) // blake2F wants exactly 213 bytes: any short input is refused
+	if preNo != 9 {
+		gasArg = uint64(rc.Intn(10)) // the hash / copy precompiles cost at least 15 gas: too little gas is refused
+		inLen = 64
+	}
+	a := &asm{}
+	a.pushN(0).pushN(0).pushN(inLen).pushN(0).pushN(value).pushB(pre).pushN(gasArg).op(vm.CALL).returnTop()
+	env.sdb.CreateAccount(caller)
+	env.sdb.SetCode(caller, a.b)
+	env.sdb.AddBalance(caller, big.NewInt(1000))
+	existed := rc.Bool()
+	if existed && perr == nil {
+		env.sdb.CreateAccount(pia)
+		env.sdb.AddBalance(pia, big.NewInt(5))
+	}
+	before := env.sdb.IntermediateRoot(true)
+	ret, _, _, err := env.evm.Call(vm.AccountRef(common.NewAddressFromData(ptr(evContract(0xee)))), common.NewAddressFromData(&caller), nil, 1_000_000, new(big.Int))
+	o.Count(fmt.Sprintf("precompile-fail:%d", preNo))
+	if err != nil || len(ret) != 32 {
+		return
+	}
+	if new(big.Int).SetBytes(ret).Sign() != 0 {
+		o.Count("precompile-fail:call-succeeded") // the input was acceptable after all: nothing to check
+		return
+	}
+	cb := env.sdb.GetBalance(caller)
+	pb := new(big.Int)
+	if perr == nil {
+		pb = env.sdb.GetBalance(pia)
+	}
+	wantP := int64(0)
+	if existed {
+		wantP = 5
+	}
+	if cb.Int64() != 1000 || pb.Int64() != wantP {
+		o.Violate("c12-failed-precompile-call-keeps-its-transfer", fmt.Sprintf("CALL with value %d to precompile %d reports failure, but the caller holds %s (1000 before) and the precompile account %s (%d before)", value, preNo, cb, pb, wantP))
+	}
+	if after := env.sdb.IntermediateRoot(true); after != before {
+		o.Violate("c12-failed-precompile-call-changes-state", fmt.Sprintf("CALL with value %d to precompile %d reports failure, yet the state root changes (account existed before: %v)", value, preNo, existed))
+	}
+}
+
+// evCreationTxThenTransfer: two whole transactions on one EVM, as in a block: a contract creation whose constructor sends
+// an ETX and then ends in any of the ways a constructor can end (also by returning code it cannot pay the deposit
+// for), then a plain transfer.  T3, for each transaction separately: what all accounts hold afterwards, plus the gas
+// charge, plus what the ETXs the transaction reports carry, is what was there before - an ETX is reported by the
+// transaction that paid for it, by no other.
+func evCreationTxThenTransfer(o *h.Out, rc *h.Rng, ans func(string)) {
+	o.Op("note")
+	ans("ok")
+	pt := evPT(rc)
+	eligible := true
+	env := newEvEnv(pt, big.NewInt(1), &eligible)
+	ending := evCreateEndings[rc.Intn(len(evCreateEndings))]
+	endow := uint64(1 + rc.Intn(1000))
+	ev := 1 + uint64(rc.Intn(int(endow)))
+	init := evInitCode(true, ev, ending, params.GetMaxCodeSize(pt))
+	payer, rcpt := evContract(0xee), evContract(0x32)
+	payerAddr := common.NewAddressFromData(&payer)
+	init, created := grindCreate(payerAddr, 0, init, evLoc)
+	gasLimit := uint64(5_000_000)
+	if ending == "storeoog" {
+		gasLimit = 400_000
+	}
+	price := big.NewInt(int64(1 + rc.Intn(4)))
+	env.sdb.CreateAccount(payer)
+	env.sdb.AddBalance(payer, new(big.Int).Add(new(big.Int).Mul(big.NewInt(12_000_000), price), big.NewInt(int64(endow))))
+	env.sdb.CreateAccount(rcpt)
+	env.sdb.AddBalance(rcpt, big.NewInt(5))
+	cia, cerr := created.InternalAndQuaiAddress()
+	sumAll := func() *big.Int {
+		t := new(big.Int).Add(env.sdb.GetBalance(payer), env.sdb.GetBalance(rcpt))
+		if cerr == nil {
+			t.Add(t, env.sdb.GetBalance(cia))
+		}
+		return t
+	}
+	env.evm.TxContext.GasPrice = price
+	run := func(what string, msg types.Message, gl uint64) bool {
+		before := sumAll()
+		res, err := core.ApplyMessage(env.evm, msg, new(types.GasPool).AddGas(gl))
+		if err != nil {
+			o.Count("creation-tx:" + what + ":not-applied")
+			return false
+		}
+		env.sdb.Finalize(true)
+		o.Count(fmt.Sprintf("creation-tx:%s:%s:failed=%v:etxs=%d", what, ending, res.Failed(), len(res.Etxs)))
+		after := new(big.Int).Add(sumAll(), new(big.Int).Mul(new(big.Int).SetUint64(res.UsedGas), price))
+		carried := new(big.Int)
+		for _, x := range res.Etxs {
+			carried.Add(carried, x.Value())
+		}
+		after.Add(after, carried)
+		if after.Cmp(before) != 0 {
+			o.Violate("c02-transaction-does-not-account-for-its-etxs", fmt.Sprintf("%s (constructor ends with %q, sends %d of an endowment of %d): balances + gas charge + value of the %d ETX(s) the transaction reports = %s, before the transaction %s (failed=%v)", what, ending, ev, endow, len(res.Etxs), after, before, res.Failed()))
+		}
+		return true
+	}
+	o.Count("creation-tx:" + ending)
+	al := types.AccessList{{Address: created}}
+	if !run("the creation", types.NewMessage(payerAddr, nil, 0, new(big.Int).SetUint64(endow), gasLimit, price, init, al, false), gasLimit) {
+		return
+	}
+	to := common.NewAddressFromData(&rcpt)
+	run("the transfer after it", types.NewMessage(payerAddr, &to, env.sdb.GetNonce(payer), big.NewInt(int64(1+rc.Intn(50))), 100_000, price, nil, types.AccessList{{Address: to}}, false), 100_000)
 }
 
 func evOneETX(o *h.Out, rc *h.Rng, ans func(string)) {
